@@ -1,5 +1,6 @@
 //@@ include prelude.rs
 //@@ include hook.rs
+//@@ include lcsspec.rs
 //@@ include algspec.rs
 //@@ include xcheck.rs
 //@@ include replace.rs
